@@ -151,12 +151,13 @@ namespace vt
       const char* base = nullptr;   // start of the current case's data (offset origin)
       long long base_byte = 0;      // initial byte counter of the case (b0)
       long long events = 0;         // per case, for the fuel limit
-      long long fuel = 200000;      // max events per case
+      long long fuel = 20000;       // max events per case
       int depth = 0;                // open wrapper frames
       int max_depth = 400;
       long long case_id = 0;
       bool tracing = true;          // false: only results are wanted
       bool in_case = false;
+      int fuel_cases = 0;           // cases of the current bundle that ran out of fuel
    };
 
    inline Global& g()
@@ -889,6 +890,9 @@ namespace vt
    {
       Global& G = g();
       G.events = -( 1LL << 40 );
+      if( x.cls == X_FUEL ) {
+         ++G.fuel_cases;
+      }
       Writer& w = G.tr;
       w.s( "{\"k\":\"end\"" );
       w.kv( "v", 2 );
